@@ -392,6 +392,7 @@ func init() {
 
 func runC02(c *Ctx) *Replay {
 	cfg := val.DefaultCfg()
+	cfg.WildDates = true // encoders are compared with each other only
 	pk := c.pickRecord(cfg)
 	if pk == nil {
 		c.Count("no_record", 1)
